@@ -63,9 +63,12 @@ func doInProc(ctx *fasthttp.RequestCtx, q rreq) (restResp, string) {
 	var stream *recReader
 	var old io.Reader
 	if q.Path == "/otp/secret" {
+		// every request draws from a stream of its own (numbered within the sequence): an answer that repeats an
+		// earlier request's secret - a cached response, a reused buffer - is not the next output of the generator
+		secretSeq++
 		tag := make([]byte, 256)
 		for i := range tag {
-			tag[i] = byte(i*7 + 3)
+			tag[i] = byte(i*7 + 3 + secretSeq*29)
 		}
 		stream = &recReader{stream: tag}
 		old = rand.Reader
@@ -95,8 +98,12 @@ func doInProc(ctx *fasthttp.RequestCtx, q rreq) (restResp, string) {
 	return resp, compareResp(q, restExpect(q, now0, now1), resp, sw)
 }
 
+// secretSeq numbers the /otp/secret requests of the sequence being run.
+var secretSeq int
+
 func runSeq(c c18Case) (obs, bad string) {
 	restInit()
+	secretSeq = 0
 	irt.ResetPools()
 	var shared *fasthttp.RequestCtx
 	if c.Reuse {
